@@ -167,3 +167,168 @@ theorem refines_of_inv {ω τ : Type} (m : Slave ω τ) (f : Nat → Nat) (nb : 
     exact ⟨hcons, h1⟩
 
 end Litex.WbMem
+
+namespace Litex.WbMem
+open Litex
+
+/-- A history of reads only is consistent iff every read returned the memory content. -/
+theorem consistent_reads (nb : Nat) (m : Mem) (l : List Op) (h : ∀ op ∈ l, op.we = false) :
+    Consistent nb m l ↔ ∀ op ∈ l, op.readOk nb m := by
+  induction l with
+  | nil => simp [Consistent]
+  | cons op rest ih =>
+    have h1 : op.we = false := h op (List.mem_cons_self ..)
+    have h2 := ih (fun o ho => h o (List.mem_cons_of_mem _ ho))
+    simp only [Consistent, h1, Bool.false_eq_true, if_false, h2, List.mem_cons, forall_eq_or_imp]
+
+/-! ### Decidability of the protocol predicates on concrete runs (used by the non-vacuity examples) -/
+
+instance decHold (p : Option Req) (x : Req) : Decidable (∀ r, p = some r → x = r) :=
+  match p with
+  | none => isTrue (by intro r h; cases h)
+  | some r0 =>
+    if h : x = r0 then isTrue (by intro r hr; cases hr; exact h)
+    else isFalse (fun hh => h (hh r0 rfl))
+
+instance decClassicFrom {ω τ : Type} (m : Slave ω τ) : (s : τ) → (p : Option Req) → (ins : List (Req × ω)) →
+    Decidable (ClassicFrom m s p ins)
+  | _, _, [] => isTrue trivial
+  | s, p, i :: is =>
+    match decHold p i.1, decClassicFrom m (m.next s i) (pendingAfter m s i) is with
+    | isTrue h1, isTrue h2 => isTrue ⟨h1, h2⟩
+    | isFalse h1, _ => isFalse (fun h => h1 h.1)
+    | _, isFalse h2 => isFalse (fun h => h2 h.2)
+
+instance decClassic {ω τ : Type} (m : Slave ω τ) (ins : List (Req × ω)) : Decidable (Classic m ins) :=
+  decClassicFrom m m.init none ins
+
+end Litex.WbMem
+
+namespace Litex.WbMem
+open Litex
+
+/-! ### The refinement interface: what it means for a slave to implement a byte memory
+
+  `Refines sl f nb P Inv`: every cycle of `sl` (for inputs allowed by `P`, master honouring the hold rule)
+  preserves `Inv` and completes bus cycles consistently with the abstract byte memory.  Adapters are proved
+  against this interface (`Refines slave → Refines (adapter.over slave)`), so refinements compose along any
+  chain master → adapter → … → memory. -/
+def Refines {ω τ : Type} (sl : Slave ω τ) (f : Nat → Nat) (nb : Nat) (P : Req × ω → Prop)
+    (Inv : τ → Option Req → Mem → Prop) : Prop :=
+  ∀ s p M i, Inv s p M → (∀ r, p = some r → i.1 = r) → P i → StepOk sl f nb (fun _ => true) Inv s i M
+
+section
+variable {ω τ : Type} {sl : Slave ω τ} {f : Nat → Nat} {nb : Nat} {Inv : τ → Option Req → Mem → Prop}
+  {s : τ} {i : Req × ω} {M : Mem}
+
+theorem StepOk.ack_active (h : StepOk sl f nb (fun _ => true) Inv s i M) (ha : (sl.out s i).ack = true) :
+    i.1.active = true := h.1 ha
+
+/-- A cycle without acknowledge: the abstract memory is unchanged and the presented strobe stays outstanding. -/
+theorem StepOk.no_ack (h : StepOk sl f nb (fun _ => true) Inv s i M) (hn : (sl.out s i).ack = false) :
+    Inv (sl.next s i) (if i.1.active then some i.1 else none) M := by
+  have h3 := h.2.2
+  have hop : opNow sl f s i = [] := by simp [opNow, hn]
+  rw [hop] at h3
+  simpa [pendingAfter, hn, applyOps] using h3
+
+/-- A cycle with acknowledge: the strobe was presented, a read returned the abstract memory's bytes on the
+    selected lanes, and the abstract memory takes the masked write. -/
+theorem StepOk.ack (h : StepOk sl f nb (fun _ => true) Inv s i M) (ha : (sl.out s i).ack = true) :
+    (i.1.we = false → ∀ k, k < nb → i.1.sel.getD k false = true →
+        (sl.out s i).dat.getD k 0 = M (f i.1.adr * nb + k)) ∧
+    Inv (sl.next s i) none (if i.1.we then M.writeMasked (f i.1.adr * nb) (i.1.sel.take nb) i.1.dat else M) := by
+  have hact := h.1 ha
+  have hop : opNow sl f s i =
+      [{ adr := f i.1.adr, we := i.1.we, sel := i.1.sel, dat := if i.1.we then i.1.dat else (sl.out s i).dat }] := by
+    simp [opNow, ha, hact]
+  obtain ⟨_, h2, h3⟩ := h
+  rw [hop] at h2 h3
+  simp only [List.filter_cons_of_pos, List.filter_nil] at h2 h3
+  rw [consistent_single] at h2
+  refine ⟨?_, ?_⟩
+  · intro hwe k hk hsel
+    have := h2 hwe k hk hsel
+    simpa [hwe] using this
+  · have hp : pendingAfter sl s i = none := by simp [pendingAfter, ha]
+    rw [hp] at h3
+    simp only [applyOps] at h3
+    cases hwe : i.1.we
+    · simpa [hwe] using h3
+    · simp only [hwe, if_true] at h3 ⊢; exact h3
+
+end
+
+/-- Building `StepOk` for a cycle without acknowledge. -/
+theorem StepOk.mk_no_ack {ω τ : Type} (sl : Slave ω τ) (f : Nat → Nat) (nb : Nat) (Inv : τ → Option Req → Mem → Prop)
+    (s : τ) (i : Req × ω) (M : Mem) (hn : (sl.out s i).ack = false)
+    (hinv : Inv (sl.next s i) (if i.1.active then some i.1 else none) M) :
+    StepOk sl f nb (fun _ => true) Inv s i M := by
+  have hop : opNow sl f s i = [] := by simp [opNow, hn]
+  refine ⟨(by rw [hn]; intro h; cases h), (by rw [hop]; simp [Consistent]), ?_⟩
+  rw [hop]
+  simpa [pendingAfter, hn, applyOps] using hinv
+
+/-- Building `StepOk` for a cycle with acknowledge. -/
+theorem StepOk.mk_ack {ω τ : Type} (sl : Slave ω τ) (f : Nat → Nat) (nb : Nat) (Inv : τ → Option Req → Mem → Prop)
+    (s : τ) (i : Req × ω) (M : Mem) (ha : (sl.out s i).ack = true) (hact : i.1.active = true)
+    (hread : i.1.we = false → ∀ k, k < nb → i.1.sel.getD k false = true →
+        (sl.out s i).dat.getD k 0 = M (f i.1.adr * nb + k))
+    (hinv : Inv (sl.next s i) none (if i.1.we then M.writeMasked (f i.1.adr * nb) (i.1.sel.take nb) i.1.dat else M)) :
+    StepOk sl f nb (fun _ => true) Inv s i M := by
+  have hop : opNow sl f s i =
+      [{ adr := f i.1.adr, we := i.1.we, sel := i.1.sel, dat := if i.1.we then i.1.dat else (sl.out s i).dat }] := by
+    simp [opNow, ha, hact]
+  refine ⟨fun _ => hact, ?_, ?_⟩
+  · rw [hop]
+    simp only [List.filter_cons_of_pos, List.filter_nil]
+    rw [consistent_single]
+    intro hwe k hk hsel
+    simp only at hwe
+    have := hread hwe k hk hsel
+    simpa [hwe] using this
+  · rw [hop]
+    have hp : pendingAfter sl s i = none := by simp [pendingAfter, ha]
+    rw [hp]
+    simp only [List.filter_cons_of_pos, List.filter_nil, applyOps]
+    cases hwe : i.1.we
+    · simpa [hwe] using hinv
+    · simp only [hwe, if_true] at hinv ⊢; exact hinv
+
+/-- The abstract slave implements its own memory, for every latency oracle. -/
+theorem latMem_refines (nb : Nat) (M0 : Mem) :
+    Refines (latMem nb M0) id nb (fun _ => True) (fun t _ M => t = M) := by
+  intro t p M i hinv _ _
+  subst hinv
+  obtain ⟨r, o⟩ := i
+  have hackEq : ((latMem nb M0).out t (r, o)).ack = (r.active && o.ack) := rfl
+  cases hack : (r.active && o.ack) with
+  | false =>
+    apply StepOk.mk_no_ack _ _ _ _ _ _ _ (by rw [hackEq, hack])
+    show (if (r.active && o.ack && r.we) = true then _ else t) = t
+    rw [hack]; rfl
+  | true =>
+    have hact : r.active = true := by cases h1 : r.active <;> simp_all
+    apply StepOk.mk_ack _ _ _ _ _ _ _ (by rw [hackEq, hack]) hact
+    · intro _ k hk hsel
+      show ((List.range nb).map fun k => if r.sel.getD k false then t (r.adr * nb + k) else o.junk.getD k 0).getD k 0 = _
+      rw [List.getD_eq_getElem?_getD, List.getElem?_map, List.getElem?_range hk]
+      simp only [Option.map_some, Option.getD_some]
+      simp only at hsel
+      rw [hsel]; rfl
+    · show (if (r.active && o.ack && r.we) = true then _ else t) = _
+      rw [hack]
+      cases r.we <;> rfl
+
+/-- From the per-cycle interface to whole runs (the statement the property makes). -/
+theorem Refines.run {ω τ : Type} {sl : Slave ω τ} {f : Nat → Nat} {nb : Nat} {P : Req × ω → Prop}
+    {Inv : τ → Option Req → Mem → Prop} (h : Refines sl f nb P Inv) (M0 : Mem) (h0 : Inv sl.init none M0)
+    (ins : List (Req × ω)) (hm : Classic sl ins) (hP : ∀ i ∈ ins, P i) :
+    Consistent nb M0 (ops sl f ins) ∧ AckOnlyStrobed sl ins := by
+  have := refines_of_inv sl f nb (fun _ => true) P Inv h ins sl.init none M0 h0 hm hP
+  have hk : (opsFrom sl f sl.init ins).filter (fun _ => true) = opsFrom sl f sl.init ins :=
+    List.filter_eq_self.mpr (fun _ _ => rfl)
+  rw [hk] at this
+  exact this
+
+end Litex.WbMem
